@@ -124,6 +124,39 @@ def make_cases(rng, tier):
         cases.append(dict(kind="PauliNoiseChannel", n=n, scale=D, qubits=[qs], w0=D - sum(ws), terms=terms,
                           build=(lambda qs=qs, strings=strings, ws=ws: gates.PauliNoiseChannel(qs, [(s, w / D) for s, w in zip(strings, ws)])),
                           coq=lambda rho, n=n, terms=terms, ws=ws: f"apply_kraus {n}%nat {D - sum(ws)} {terms} {zmat(rho)}"))
+    # F: every documented constructor input form of KrausChannel / UnitaryChannel, with GATE operators re-placed on a
+    #    per-operator qubits list (two operators sharing their original qubit go to DIFFERENT targets; a two-qubit gate
+    #    given on (1,0) goes to a permuted target pair).  Declared semantics: operator k acts on qubits[k], its i-th
+    #    original qubit -> qubits[k][i].
+    def forms(n):
+        A, B, M = rand_gint(rng, 1), rand_gint(rng, 1), rand_gint(rng, 2)
+        U = lambda mat, *q: gates.Unitary(mat.astype(complex), *q)  # noqa: E731
+        out = []
+        t = rng.sample(range(n), 2) if n >= 2 else [0, 0]
+        if n >= 2:
+            out.append(("gates_shared_origin", lambda: ([(t[0],), (t[1],)], [U(A, 0), U(B, 0)]), [((t[0],), A), ((t[1],), B)]))
+            out.append(("gates_tuple", lambda: ((t[1], t[0]), [U(M, 0, 1), U(M.T.copy(), 1, 0)]), [((t[1], t[0]), M), ((t[1], t[0]), M.T.copy())]))
+            out.append(("matrices_tuple", lambda: ((t[1], t[0]), [M, M.T.copy()]), [((t[1], t[0]), M), ((t[1], t[0]), M.T.copy())]))
+        if n >= 3:
+            p3 = rng.sample(range(n), 3)
+            out.append(("gates_permuted_2q", lambda: ([(p3[0], p3[1]), (p3[2],), (p3[1],)], [U(M, 1, 0), U(A, 0), U(B, 1)]),
+                        [((p3[0], p3[1]), M), ((p3[2],), A), ((p3[1],), B)]))
+            out.append(("gates_empty_qubits", lambda: ([], [U(A, p3[2]), U(M, p3[1], p3[0])]), [((p3[2],), A), ((p3[1], p3[0]), M)]))
+        q = rng.randrange(n)
+        out.append(("matrices_int", lambda: (q, [A, B]), [((q,), A), ((q,), B)]))
+        out.append(("gates_int", lambda: (q, [U(A, 0), U(B, (q + 1) % max(n, 1))]), [((q,), A), ((q,), B)]))
+        return out
+    for n in range(1, nmax + 1):
+        for form, mk, decl in forms(n):
+            ws = [rng.randint(1, D // 4) for _ in decl]
+            termsK = "[" + "; ".join(f"(1, {nats(qq)}, {zmat(Mk)})" for qq, Mk in decl) + "]"
+            termsU = "[" + "; ".join(f"({w}, {nats(qq)}, {zmat(Mk)})" for w, (qq, Mk) in zip(ws, decl)) + "]"
+            cases.append(dict(kind="KrausChannel", form=form, decl=decl, n=n, scale=1, qubits=[qq for qq, _ in decl], w0=0, terms=termsK,
+                              build=(lambda mk=mk: gates.KrausChannel(*mk())),
+                              coq=lambda rho, n=n, terms=termsK: f"apply_kraus {n}%nat 0 {terms} {zmat(rho)}"))
+            cases.append(dict(kind="UnitaryChannel", form=form, decl=decl, n=n, scale=D, qubits=[qq for qq, _ in decl], w0=D - sum(ws), terms=termsU,
+                              build=(lambda mk=mk, ws=ws: (lambda qo: gates.UnitaryChannel(qo[0], [(w / D, o) for w, o in zip(ws, qo[1])]))(mk())),
+                              coq=lambda rho, n=n, terms=termsU, ws=ws: f"apply_kraus {n}%nat {D - sum(ws)} {terms} {zmat(rho)}"))
     # D: ResetChannel at every position
     for n in range(1, nmax + 1):
         for q in range(n):
@@ -335,6 +368,15 @@ def main(run):
         want = parse_zmat(v)
         ch = cs["build"]()
         hist = []
+        if "decl" in cs:        # the object's gates must be the declared (targets, matrix) pairs, in order
+            from qibo.backends import _check_backend
+            be = _check_backend(None)
+            got = [(tuple(g.target_qubits), np.asarray(g.matrix(be))) for g in ch.gates]
+            okd = len(got) == len(cs["decl"]) and all(gq == tuple(dq) and gm.shape == dm.shape and np.array_equal(gm, dm)
+                                                      for (gq, gm), (dq, dm) in zip(got, cs["decl"]))
+            check(run, f"construction:{cs['kind']}:{cs['form']}", okd,
+                  {"class": cs["kind"], "form": cs["form"], "n": cs["n"], "declared": [[list(dq), zmat(dm)] for dq, dm in cs["decl"]],
+                   "constructed_targets": [list(gq) for gq, _ in got]})
         # history: optionally query representations before / between executions
         script = rng.choice([["exec"], ["choi", "exec"], ["exec", "liouville", "exec"], ["pauli", "choi", "exec", "exec"],
                              ["sv", "choi", "sv", "exec"], ["liouville", "pauli", "sv", "exec"]])
